@@ -46,7 +46,7 @@ def parser_queries(fns, pat, label):
                 continue
             seen.add(key)
             sc.query("%s: no panic: %s @%s" % (label, msg[:50], bb), pc + [mk_not(cond)])
-        for (callee, args, bb, epc) in p.events:
+        for (callee, args, bb, epc, _av) in p.events:
             if re.search(ALLOC, callee):
                 size = args[1] if re.search(r"resize|reserve", callee) else args[0] if "with_capacity" in callee else args[1]
                 if size is None:
